@@ -93,15 +93,57 @@ def run(tier, seed, replay):
             cls = m.group(2) if m else "cli-only"
             key = KNOWN.get(cls) or "c06:cli:%s" % cls
             v.violation(key, "`2a-emulator verify` accepts the file but `run` crashes (exit %s): %r" % (pr.returncode, t[:200]), {"text": t, "stderr": pr.stderr[-500:]})
+    # the interactive front end: `load PATH` builds the program pane from the byte code and draws it
+    from checks import tui_common as tc
+    tsample = risk_programs(random.Random(2)) + [tg.program(rng, nlines=rng.randrange(0, 30)) for _ in range(30 if tier == "quick" else 300)]
+    script = []
+    starts = []
+    for i, t in enumerate(tsample):
+        fp = os.path.join(d, "t%d.asm" % i)
+        open(fp, "w").write(t)
+        starts.append(len(script))
+        script += ["new", "size 120 45"] + [tc.key_line(k) for k in tc.type_line("load " + fp)] + ["enter", "enter", "draw", "size 80 24", "draw"]
+    recs, proc = tc.run_script(script, "c06-tui")
+    ntui = 0
+    bad_tui = []
+    for i, t in enumerate(tsample):
+        lo = starts[i]
+        hi = starts[i + 1] if i + 1 < len(starts) else len(script)
+        chunk = recs[lo:hi]
+        ntui += 1
+        pan = [x for x in chunk if x.get("key_panic") is not None or x.get("draw_panic") is not None]
+        if pan or len(chunk) < hi - lo:
+            bad_tui.append((t, (pan[0].get("key_panic") or pan[0].get("draw_panic")) if pan else "session ended"))
+    if bad_tui:
+        p3, _ = ac.parse_texts([t for t, _ in bad_tui], "c06-tui-crash", "full")
+        # classify on the real AST; a text the parser rejects cannot be loaded (notification), so it never crashes here
+        r3 = vlib.tlc(os.path.join(vlib.SPEC, "trace", "TraceAsm.tla"), os.path.join(vlib.SPEC, "trace", "TraceAsm_C06.cfg"), workers=1,
+                      env={"TRACE": p3}, timeout=900, xmx="3g", xss="512m", deque=True, name="c06-tui-judge")
+        cls_by_seq = {int(a): b for a, b in re.findall(r'<<"CRASH", (\d+), "(\w+)">>', r3.out)}
+        lines3 = [json.loads(l) for l in open(p3)]
+        for n, (t, msg) in enumerate(bad_tui, 1):
+            rec3 = lines3[n - 1]
+            if rec3.get("v") == "accept":
+                a_cls = cls_by_seq.get(n)
+                if a_cls is None:
+                    # compile/load did not crash in the library: the crash is the front end's own
+                    a_cls = "tui-only"
+            else:
+                a_cls = "rejected-text"
+            key = KNOWN.get(a_cls) or "c06:tui:%s:%s" % (a_cls, re.sub(r"\d+", "N", msg)[:50])
+            if (key,) in seen:
+                continue
+            seen.add((key,))
+            v.violation(key, "`load` of an accepted program crashes the interactive session (%s; class %s): %r" % (msg[:120], a_cls, t[:200]), {"text": t, "panic": msg})
     cov = {
         "states": r.distinct, "transitions": r.generated, "traces_validated_against_impl": len(lines),
         "samples": [{"text": texts[3]}, {"text": texts[-1]}], "texts": len(texts), "accepted_by_real_parser": accepted, "crashes_seen": len(crashes),
-        "cli_verify_then_run": ncli, "exhaustive": False,
+        "cli_verify_then_run": ncli, "tui_loads": ntui, "exhaustive": False,
         "evaluations": len(texts), "distinct_nontrivial": len(set(texts)),
         "rule": "risk classes of the property (labels referenced in every case variant, every operand shape of DEC/LDSP/LDFR, .ORG to addresses below / "
                 "at / above the current position, image sizes 0..700 built from .BYTE/.DB/.DW) + random and mutated programs + every instruction shape; "
                 "each accepted text is compiled, listed (Display of ByteCode) and loaded into a Machine under catch_unwind; TLC classifies every crash "
-                "with Asm.tla (backward .ORG / oversize / defined); `2a-emulator verify` then `run` on a sample",
+                "with Asm.tla (backward .ORG / oversize / defined); `2a-emulator verify` then `run` on a sample; `load PATH` typed into the real interactive session (program pane built and drawn)",
     }
     return v.finish("model_checking", cov, ["TLC classifies; the exploration engine for panics is the generator (stated in DESIGN.md)",
                                             "Translator::compile has no error channel: backward .ORG and oversize images are recorded as known findings"])
